@@ -343,15 +343,15 @@ def key_flow_rules(prog, chk, pid, hdr=None):
     where = "%s:%d" % (fi.file, fi.lineno)
     ev = res.events
     # dispatch: AUTH_BLOCK_CLS_MAP[tag].unpack(value, ext_encryptors)
-    unp = [e for e in ev if e.kind == "dyncall" and meth_call(unsnap(e.d["result"])) is None and unsnap(e.d["fn"]).op == "attr" and unsnap(e.d["fn"]).args[1] == "unpack"]
+    unp = [e for e in ev if e.kind == "dyncall" and meth_call(unsnap(e.d["result"])) is None and unsnap(e.d["fnterm"]).op == "attr" and unsnap(e.d["fnterm"]).args[1] == "unpack"]
     if not unp:
-        unp = [e for e in ev if e.kind in ("dyncall", "mcall") and (e.d.get("name") == "unpack" or (e.kind == "dyncall" and unsnap(e.d["fn"]).op == "attr" and unsnap(e.d["fn"]).args[1] == "unpack"))]
+        unp = [e for e in ev if e.kind in ("dyncall", "mcall") and (e.d.get("name") == "unpack" or (e.kind == "dyncall" and unsnap(e.d["fnterm"]).op == "attr" and unsnap(e.d["fnterm"]).args[1] == "unpack"))]
     ok = len(unp) == 1
     why = "no single dispatch <block class for tag>.unpack(value, ext_encryptors)"
     sess = None
     if ok:
         u = unp[0]
-        recv = unsnap(u.d["fn"]).args[0] if u.kind == "dyncall" else u.d["recv"]
+        recv = unsnap(u.d["fnterm"]).args[0] if u.kind == "dyncall" else u.d["recv"]
         recv = unsnap(recv)
         ok = recv.op == "sub" and unsnap(recv.args[0]).op == "static" and unsnap(recv.args[0]).args[0].endswith("AUTH_BLOCK_CLS_MAP") and any(unsnap(recv.args[1]) is v for v in tagf.int_views)
         a = u.d["args"]
